@@ -426,3 +426,34 @@ def c13m(ctx):
         else:
             ctx.bad('%s:%s' % (o.rule, o.construct), o.msg, o.where)
     ctx.stats['functions'] |= sub.stats['functions']
+
+
+@rule('C13.n', floor=2)
+def c13n(ctx):
+    """shared rule C12.e, re-evaluated for this property: the age of a tile in the sqlite backends is read with the time convention it
+    was written with (the writer stores local time, the reader converts with time.mktime) -- read as UTC, every age is off by the UTC
+    offset of the server and tiles are refreshed too early or too late"""
+    from ..engine import share
+    share(ctx, 'C12', {'C12.e'})
+
+
+@rule('C13.o', floor=2)
+def c13o(ctx):
+    """a refresh renews the age of the tile: the age of a linked single-colour tile is the modification time of the link itself, so
+    storing such a tile always makes the link anew (remove + link / symlink) -- also when the tile already points at the same colour.
+    There is no way out of _store_single_color_tile before the link call (an "already linked" shortcut leaves the old age in place
+    and the tile is fetched again on every request after the threshold)"""
+    fn = ctx.fn('mapproxy/cache/file.py:FileCache._store_single_color_tile')
+    g = fn.cfg
+    links = [n for n, x in g.find(lambda x: is_call(x, 'os.link', 'os.symlink'))]
+    if len(links) < 2:
+        raise Undecided('_store_single_color_tile: %d link calls found' % len(links))
+    rets = g.find_stmts(lambda s: isinstance(s, ast.Return))
+    # every explicit return comes after one of the link calls (on each path to it a link call was made)
+    free = g.reachable(0, avoid=links)
+    ok = all(n not in free for n in rets)
+    ctx.check(ok, 'FileCache._store_single_color_tile:always-links-anew', 'no return is reachable without passing os.link / os.symlink', fn,
+              fail='_store_single_color_tile can return without making the link anew: a refreshed tile of the same colour keeps its old age')
+    unl = [n for n, x in g.find(lambda x: is_call(x, 'os.unlink', 'os.remove'))]
+    ok = bool(unl) and all(any(u in g.reachable(0) and l in g.reachable(u) for u in unl) for l in links)
+    ctx.check(ok, 'FileCache._store_single_color_tile:old-link-removed-first', 'an existing link is removed before the new one is made', fn)
